@@ -14,6 +14,9 @@ CLAIMS = {
  "C03": dict(cat="other", tech="static analysis: abstract interpretation of every operation handler (all syntactic paths) into next-row expressions, substituted into the extracted constraint polynomials; canonical-form comparison; typestate of decoder rows",
    text="Writer/reader agreement over all operations: each handler path of Process::execute_op (extracted by abstract interpretation on a symbolic stack row) writes all 16 next-row cells through exactly one copy/shift primitive and one clock advance; its next row, helper values and fmp update, substituted into every stack transition constraint restricted to that opcode, give the zero polynomial (constraints that depend on values the model treats as fresh - u32 limbs, memory, advice - are counted as undecided, not passed); handler effects agree cell by cell with the documented shift sentences and opcode prefix classes; control operations execute the documented Noop/Drop; helper registers read by constraints are written; exactly the prefix-100 operations request range checks; every DecoderTrace::append_* grows all 24 columns by one row with correct op bits and degree-reduction columns; the trace length formula has exactly its three sources plus NUM_RAND_ROWS and no capacity hint.",
    note="Trusted: " + TB + "; mirsym and the abstract Process model (stack/system/chiplets/host intrinsics in vlib/procmodel.py); docs/src/design. Not decided: auxiliary columns, chiplet fragments, range-table contents, concrete trace values.", ref="§3 C03"),
+ "C05": dict(cat="other", tech="static analysis: abstract interpretation of the assembler's instruction lowering (all variants, all syntactic paths) composed with the operation model on a symbolic stack; comparison with the parsed instruction reference",
+   text="For every Instruction variant the lowering to VM operations is extracted from Assembler::compile_instruction (symbolic immediates, guards as labels) and composed with the handler model on a symbolic stack of 16 visible + 16 deeper cells. Data-movement instructions (96 variants) must equal the reference permutation on every cell including those below position 15 (equality of symbolic stacks is equality for every concrete stack); for every matched row of the reference tables the net depth change, the untouched frame, copied outputs and polynomial result formulas (c <- a+b, a*b^-1, ...) are compared; eq/neq/eqw/assert_eq* must compare exactly the documented cell pairs; documented failing cases must be reachable with guards over the documented operands and no prior stack write; error codes and zero-divisor immediates are wired; validated parameter ranges equal the documented ones; shift_left pops/decrements only when depth > 16.",
+   note="Trusted: " + TB + "; mirsym, lowering extractor, operation model; docs/src/user_docs/assembly as oracle; frozen family formulas / FAILING / RANGES tables. Not decided: numerical results of u32, ext2, hashing instructions (fresh values in the model); immediate text parsing; counted/list immediates only for a representative symbolic length.", ref="§3 C05"),
 }
 
 NA = {
